@@ -12,6 +12,7 @@ pub(crate) mod units14;
 
 use crate::runner::*;
 
+#[cfg(not(fuzzing))]
 #[global_allocator]
 static GLOBAL: alloctrack::TrackAlloc = alloctrack::TrackAlloc;
 
@@ -194,6 +195,114 @@ fn replay(path: &str) -> i32 {
     }
 }
 
+
+// ---------------------------------------------------------------------------
+// Miri tier (thorough): cases are generated natively by the proptest strategies
+// (`lowstd --gen-batch <ID> <n> <seed>` prints one JSON line per case), and the
+// batch is then interpreted by Miri (`cargo +nightly miri run --bin lowstd --
+// --miri-batch <file>`, many scheduler seeds): real std threads under Miri's
+// weak-memory emulation, data-race detector, Stacked Borrows, leak check. Each
+// case runs once per Miri seed with the same oracles as natively.
+
+fn sample<S: SubCheck>(s: &S, prop: &str, n: usize, seed: u64, out: &mut Vec<String>) {
+    use proptest::strategy::{Strategy, ValueTree};
+    use proptest::test_runner::{Config, RngSeed, TestRunner};
+    let mut runner = TestRunner::new(Config {
+        rng_seed: RngSeed::Fixed(core::mix(seed, 0xB47C)),
+        failure_persistence: None,
+        ..Config::default()
+    });
+    let strat = s.strategy();
+    for _ in 0..n {
+        if let Ok(t) = strat.new_tree(&mut runner) {
+            let c = t.current();
+            let j = serde_json::json!({"property": prop, "sub": s.name(), "case": c});
+            out.push(j.to_string());
+        }
+    }
+}
+
+fn gen_batch(prop: &str, n: usize, seed: u64) -> i32 {
+    let mut out = Vec::new();
+    match prop {
+        "C04" | "C05" | "C13" => {
+            sample(&tasks::TaskSeqSub, prop, n, seed, &mut out);
+            sample(&tasks::TaskConcSub { iters: 1 }, prop, n, seed, &mut out);
+        }
+        "C12" => {
+            sample(&chan::ChanPollSub, prop, n, seed, &mut out);
+            sample(&chan::QConcSub { iters: 1 }, prop, n, seed, &mut out);
+            sample(&chan::ChanThrSub { iters: 1 }, prop, n, seed, &mut out);
+        }
+        "C14" => {
+            sample(&units14::RwSub { iters: 1 }, prop, n, seed, &mut out);
+            sample(&units14::TsSub { iters: 1 }, prop, n, seed, &mut out);
+        }
+        "C15" => sample(&scell::CellSub { iters: 1 }, prop, n, seed, &mut out),
+        _ => return 2,
+    }
+    for l in out {
+        println!("{}", l);
+    }
+    0
+}
+
+fn eval_once(sub: &str, case: &serde_json::Value) -> Option<Verdict> {
+    fn go<S: SubCheck>(s: &S, case: &serde_json::Value) -> Option<Verdict> {
+        let c: S::Case = serde_json::from_value(case.clone()).ok()?;
+        Some(s.eval(&c))
+    }
+    match sub {
+        "c13-task-seq" => go(&tasks::TaskSeqSub, case),
+        "c13-task-conc-threads" => go(&tasks::TaskConcSub { iters: 1 }, case),
+        "c12-chan-poll" => go(&chan::ChanPollSub, case),
+        "c12-queue-conc-threads" => go(&chan::QConcSub { iters: 1 }, case),
+        "c12-chan-threads" => go(&chan::ChanThrSub { iters: 1 }, case),
+        "c15-cell-threads" => go(&scell::CellSub { iters: 1 }, case),
+        "c14-rwlock-threads" => go(&units14::RwSub { iters: 1 }, case),
+        "c14-taskset-threads" => go(&units14::TsSub { iters: 1 }, case),
+        _ => None,
+    }
+}
+
+/// Runs every case of a batch file once; prints `MIRI-CASE-FAIL <line number> <sub> <clause>: <detail>`
+/// for oracle failures and a final `MIRI-BATCH-DONE <cases> <failures>` line. (Undefined
+/// behaviour and data races are reported by Miri itself, which aborts the interpretation.)
+fn miri_batch(path: &str) -> i32 {
+    let txt = match std::fs::read_to_string(path) {
+        Ok(t) => t,
+        Err(e) => {
+            eprintln!("cannot read {}: {}", path, e);
+            return 2;
+        }
+    };
+    let only: Option<usize> = std::env::var("LOWLAB_ONLY_LINE").ok().and_then(|s| s.parse().ok());
+    let (mut n, mut bad) = (0usize, 0usize);
+    for (i, l) in txt.lines().enumerate() {
+        if only.map_or(false, |k| k != i) {
+            continue;
+        }
+        let Ok(v) = serde_json::from_str::<serde_json::Value>(l) else { continue };
+        let sub = v["sub"].as_str().unwrap_or("");
+        println!("MIRI-CASE-BEGIN {} {}", i, sub);
+        match eval_once(sub, &v["case"]) {
+            Some(Verdict::Fail { clause, detail, .. }) => {
+                bad += 1;
+                println!("MIRI-CASE-FAIL {} {} {}: {}", i, sub, clause, detail);
+            }
+            Some(_) => {}
+            None => println!("MIRI-CASE-SKIP {} {}", i, sub),
+        }
+        n += 1;
+    }
+    println!("MIRI-BATCH-DONE {} {}", n, bad);
+    if bad > 0 {
+        1
+    } else {
+        0
+    }
+}
+
 pub(crate) fn main() {
     let args: Vec<String> = std::env::args().collect();
     let mut tier = std::env::var("VERIF_TIER").unwrap_or_else(|_| "quick".to_string());
@@ -215,6 +324,14 @@ pub(crate) fn main() {
             }
             "--replay" => {
                 std::process::exit(replay(&args[i + 1]));
+            }
+            "--gen-batch" => {
+                let n = args.get(i + 2).and_then(|s| s.parse().ok()).unwrap_or(20);
+                let sd = args.get(i + 3).and_then(|s| s.parse().ok()).unwrap_or(1);
+                std::process::exit(gen_batch(&args[i + 1], n, sd));
+            }
+            "--miri-batch" => {
+                std::process::exit(miri_batch(&args[i + 1]));
             }
             x => prop = Some(x.to_string()),
         }
